@@ -120,7 +120,9 @@ def pre_cli(kind: int, form: int, v: int, hi: int, s: str, second: int, v2: int)
             return False
         if form >= 2 and not (v < 8 and v2 < 8 and hi - v <= 2):
             return False
-    return in_shard(kind * 3 + second)
+    # kind 4 (ranges/lists with fully symbolic non-negative bounds) is the expensive one: one shard per form
+    key = kind * 3 + second if kind < 4 else 12 + form * 3 + second if kind == 4 else 24 + second
+    return in_shard(key)
 
 
 BOOLA = ("t", "f", "0", "1", "y", "n", "T", "x")
@@ -141,9 +143,9 @@ def classify_cli(kind, form, v, hi, s, second, v2):
 
 @harness(
     pre=pre_cli,
-    quick=dict(V=10 ** 4, S=12, L=3, timeout=100, per_path_timeout=40),
+    quick=dict(V=10 ** 4, S=12, L=3, timeout=150, per_path_timeout=40),
     thorough=dict(V=10 ** 6, S=40, L=5, timeout=900, per_path_timeout=60),
-    nshards=dict(quick=18, thorough=18),
+    nshards=dict(quick=27, thorough=27),
     reach=["int_ok", "int_signed_ok", "int_rejected", "str_ok", "bool_canonical", "bool_garbage", "multi_range",
 
            "unknown_rejected", "two_options"],
@@ -325,10 +327,11 @@ def h_ranges(lo: int, hi: int, x: int, form: int, cfg: bool):
     if clo < 0 < chi:
         reached("range_across_zero")
     p = _parser()
+    if cfg:
+        reached("range_cfg")
     raised = None
     try:
         if cfg:
-            reached("range_cfg")
             _run_config(p, {"nums": text})
         else:
             p.parse_command_line(["prog", "--nums=" + text])
